@@ -83,5 +83,10 @@ func printIterations(args []any) int {
 			}
 		}
 	}
+	if itr < 1 {
+		// A modifier that is asked for makes one pass at least: a count of zero (it may come from the data) must not
+		// switch the escaping off.
+		itr = 1
+	}
 	return itr
 }
